@@ -3785,14 +3785,17 @@ handle_response(coap_context_t *context, coap_session_t *session,
                                    return);
     if (ret == COAP_RESPONSE_FAIL && rcvd->type != COAP_MESSAGE_ACK) {
       coap_send_rst_lkd(session, rcvd);
-      session->last_con_handler_res = COAP_RESPONSE_FAIL;
+      if (rcvd->type == COAP_MESSAGE_CON)
+        session->last_con_handler_res = COAP_RESPONSE_FAIL;
     } else {
       coap_send_ack_lkd(session, rcvd);
-      session->last_con_handler_res = COAP_RESPONSE_OK;
+      if (rcvd->type == COAP_MESSAGE_CON)
+        session->last_con_handler_res = COAP_RESPONSE_OK;
     }
   } else {
     coap_send_ack_lkd(session, rcvd);
-    session->last_con_handler_res = COAP_RESPONSE_OK;
+    if (rcvd->type == COAP_MESSAGE_CON)
+      session->last_con_handler_res = COAP_RESPONSE_OK;
   }
 }
 #endif /* COAP_CLIENT_SUPPORT */
